@@ -189,6 +189,9 @@ class Concrete:
                                 x = z3.IntVal(iv)
                         vals.append(iv)
                         self.eqs.append(arr[k] == x)
+                if arr is not None:
+                    # the whole entry array is fixed (cells beyond the region get the same default as dumped post arrays)
+                    self.eqs.append(arr == concrete_array(ft, vals))
                 ent["fields"][path] = (ft, vals)
             elif ft.kind == "array" and ft.to.kind in ("int", "bool", "double"):
                 continue        # embedded scalar array: left zero-initialised in the harness
